@@ -59,6 +59,11 @@ def ident_f32():
     return Gamma("ident_f32", lambda v: np.float32(v), lambda x: x, dtype=np.float32)
 
 
+def ident_ld():
+    """extended precision scores (np.longdouble): one ulp of theirs is far less than a float64 ulp"""
+    return Gamma("ident_ld", lambda v: np.longdouble(v), lambda x: x, dtype=np.longdouble)
+
+
 def ident_u8():
     return Gamma("ident_u8", lambda v: np.uint8(v) if 0 <= v < 256 else float(v), lambda x: x, dtype=np.uint8)
 
